@@ -58,6 +58,7 @@ pub fn holds(c: &Cons, a: &[i32]) -> bool {
         }
         Cons::Cumulative { starts, durs, uses, cap, .. } => cumulative_holds(starts, durs, uses, *cap, a),
         Cons::PredClause { preds } => preds.iter().any(|p| p.holds(a[p.var] as i64)),
+        Cons::ViewClause { atoms } => atoms.iter().any(|p| p.holds(a[p.term.var] as i64)),
     }
 }
 
